@@ -31,9 +31,11 @@ def privacy(prog, rep):
     return n
 
 
-def canonicalize_shape(prog, rep):
+def canonicalize_shape(prog, rep, only=None):
     n = 0
     for crate, ty in (('unic_langid_impl', 'LanguageIdentifier'), ('unic_locale_impl', 'Locale')):
+        if only and crate != only:
+            continue
         fb = entry.find_method(prog, crate, ty, 'from_bytes')
         for fn in entry.find_fn(prog, crate, 'canonicalize'):
             if fn.count('::') != 1:
@@ -68,7 +70,7 @@ def canonicalize_shape(prog, rep):
                     bad.append('result of from_bytes not tested')
             rep.ob('canonicalize:%s' % crate, 'EMIT-CANON', fn, b['span'], '%s::canonicalize = %s::from_bytes(input)?.to_string() and nothing else' % (crate, ty), not bad and segs,
                    detail='\n'.join(sorted(set(bad))[:4]), how='%d paths' % len(segs))
-    rep.floor('canonicalize functions', n, 2)
+    rep.floor('canonicalize functions', n, 1 if only else 2)
 
 
 def run(tier, replay=None):
@@ -82,6 +84,9 @@ def run(tier, replay=None):
     np = privacy(prog, rep)
     rep.floor('fields covered by the privacy rule', np, 9)
     canonicalize_shape(prog, rep)
+    # values produced by maximize/minimize come from the tables: every stored integer must decode to canonical text (shared with C18)
+    from . import tables
+    tables.likely(common.program('K1'), rep)
     try:
         from . import parse
         parse.store_obligations(prog, rep)
